@@ -8,6 +8,10 @@ SPEC = {
         # sleep-bound, real time: the case count per process is fixed inside the test (vf.Batch: 24 quick / 96 thorough, 32 at a time)
         {"name": "TestSparseProfiles", "quick": 48, "thorough": 384, "shards_quick": 2, "shards_thorough": 4, "timeout": 900,
          "race_thorough": True},
+        {"name": "TestBoundaryContention", "quick": 160, "thorough": 6000, "shards_quick": 4, "shards_thorough": 12, "timeout": 2400,
+         "race_thorough": True},
+        {"name": "TestMultiPool", "quick": 160, "thorough": 6000, "shards_quick": 4, "shards_thorough": 12, "timeout": 2400,
+         "race_thorough": True},
     ],
     "rule": ("rapid-generated single-pool configurations run through the real engine.Engine with recording doubles: 1-8 instances "
              "(startup once/const/instance_step), shared or per-instance finite profile tree (<= 100 tokens, pre-started 0-3 s in the "
@@ -21,14 +25,44 @@ SPEC = {
              "1-5 instances, shared or per-instance, ammo unbounded / = / > / < tokens, discard_overflow on/off, shots of 0-20 ms, "
              "constructor or config-decoded profile; each case once, 24 cases concurrently per process. How far ahead a token was when "
              "Next returned it is measured by a logging schedule wrapper. Non-trivial there = some token was handed out more than 1 s "
-             "before its time and min(tokens, ammo) >= 2."),
+             "before its time and min(tokens, ammo) >= 2. "
+             "TestBoundaryContention: the same oracle (3 runs per case) for profiles made of many small parts: a list of 1-5 small "
+             "parts (once 1-3, const/line of 1-3 tokens over 10 us - 3 ms, token-less sections) written 20 or more times in a row (up to 400 parts), "
+             "`step` with 30-200 steps of 0.5-2 ms (1-4 tokens each), instance_step used as a profile with 30-200 steps, or a list "
+             "of short step / instance_step profiles repeated 4-16 times; 2-16 instances, so that a part has fewer tokens than there "
+             "are instances; profile pre-started 1.7-3 s in the past (every token overdue: nobody sleeps and the instances arrive at "
+             "every part boundary together) or, if it lasts < 40 ms, run live; shared (7 in 8) or per-instance, ammo unbounded / = / "
+             "> / < tokens, discard_overflow on/off, constructor or config-decoded profile (durations >= 1 ms); in 3 cases of 4 the "
+             "instances' goroutines call runtime.Gosched at the lock-free points of the composite schedule (hook "
+             "schedule.VerifYield: between dropping the read lock and taking the write lock, or at all four points), which makes "
+             "'several instances between the two locks at once' frequent on a busy machine too. Non-trivial as in TestAccounting. "
+             "TestMultiPool: engines with 2-4 pools sharing one Metrics (each pool: own doubles, 1-4 instances, shared or "
+             "per-instance profile that is paced over 8-40 ms or a small tree started 0-3 s in the past, ammo as above, "
+             "discard_overflow on/off) where the gun set-up of a pool is instant or plainly slow (0.2-20 ms in the construction of "
+             "the pool's first gun / of every gun / in WarmUp), so that pools start shooting at different times and one pool "
+             "finishes its set-up while another is shooting; each case twice. Per pool the oracle of TestAccounting (instances "
+             "started = guns bound), for the engine InstanceStart = InstanceFinish and Request = Response = shots of all pools. "
+             "When a pool's set-up ended relative to the other pools' shots is measured from the doubles' records. Non-trivial "
+             "there = at least two pools with min(tokens, ammo) >= 1."),
     "floors": {"TestAccounting/ammo_lt_tokens": 0.1, "TestAccounting/ammo_eq_tokens": 0.1, "TestAccounting/per_instance": 0.21,
                "TestAccounting/shared": 0.3, "TestAccounting/discards": 0.03, "TestAccounting/composite_profile": 0.3,
                "TestAccounting/profile_via_config": 0.1, "TestAccounting/ammo_ran_out_while_instances_were_still_being_started": 0.1, "TestAccounting/per_instance_composite_via_config": 0.036,
                "TestSparseProfiles/token_handed_out_more_than_1s_ahead": 0.35, "TestSparseProfiles/token_handed_out_more_than_2s_ahead": 1,
                "TestSparseProfiles/several_instances_waited_more_than_1s": 0.15, "TestSparseProfiles/far_token_and_bounded_ammo": 0.05,
                "TestSparseProfiles/shape_const_below_1rps": 0.04, "TestSparseProfiles/shape_pause_between_parts": 0.04,
-               "TestSparseProfiles/per_instance": 0.2, "TestSparseProfiles/shared": 0.2},
+               "TestSparseProfiles/per_instance": 0.2, "TestSparseProfiles/shared": 0.2,
+               "TestBoundaryContention/shared_small_parts_fewer_tokens_than_instances": 0.3,
+               "TestBoundaryContention/shared_small_parts_all_tokens_overdue": 0.22,
+               "TestBoundaryContention/shared_small_parts_8_or_more_instances": 0.08,
+               "TestBoundaryContention/shared_one_token_parts": 0.05, "TestBoundaryContention/parts_100_or_more": 0.25,
+               "TestBoundaryContention/contended_step": 0.04, "TestBoundaryContention/contended_istep": 0.04,
+               "TestBoundaryContention/contended_nested": 0.06,
+               "TestBoundaryContention/shared_small_parts_yield_between_locks": 0.22,
+               "TestBoundaryContention/shared_small_parts_plain_scheduling": 0.07,
+               "TestBoundaryContention/shared_small_parts_live": 0.08,
+               "TestMultiPool/pool_finished_gun_setup_after_another_pool_had_fired": 0.25,
+               "TestMultiPool/pool_finished_gun_setup_in_the_middle_of_another_pools_shooting": 0.15,
+               "TestMultiPool/two_or_more_pools_fired": 0.25, "TestMultiPool/pools_3": 0.1},
     "manifest": {
         "technique": "property-based testing (rapid) of the real engine with recording doubles; conservation-law oracle over the recorded history",
         "text": ("The real engine runs generated pool configurations against doubles that record every Acquire/Release/Shoot/Report; "
@@ -36,7 +70,10 @@ SPEC = {
                  "exactly once and never used after release, unfired <= instances-1 (shared) / 0 (per-instance), request = response = "
                  "fired, InstanceStart = InstanceFinish. Interleavings are those the Go scheduler produced (3 runs per case; -race in thorough). "
                  "A second test runs the same oracle in real time on sparse profiles (rates below 1 rps, lines from / to 0, pauses of "
-                 "seconds between sections), where instances hold an ammo item while their token is 1-3 s in the future."),
+                 "seconds between sections), where instances hold an ammo item while their token is 1-3 s in the future. A third "
+                 "test drains shared profiles of hundreds of parts with fewer tokens per part than instances and all tokens overdue, "
+                 "so that instances contend at every part boundary (goroutine yields injected at the schedule's lock-free hook points). A fourth runs engines with 2-4 pools on one shared Metrics whose "
+                 "gun set-up takes different times: the laws must hold per pool and request = response = shots of all pools."),
         "note": "Trusts the doubles (internal/fake) and the schedule tree reference (C01/C02) for the token count; goroutine interleavings are sampled, not controlled.",
     },
     "assumptions": ["token count of the profile is taken from the C02 reference chain of its parts"],
